@@ -6,7 +6,7 @@
    [match_out]             an answer satisfies the expectation (status / error class, and for reads the
                            data, name, mime, pairs, last-modified, flags, ttl, cookie, count)              *)
 From Coq Require Import List NArith ZArith Bool.
-From SW Require Import model.Volume proof.VolumeProofs.
+From SW Require Import model.Volume proof.VolumeProofs proof.VolumeKeyProofs proof.VolumeKeyOps proof.VolumeKeyMain.
 Import ListNotations.
 Local Open Scope N_scope.
 
@@ -118,3 +118,115 @@ Example c01_example :
   [(0, 1); (1, 200); (1, 404); (0, 1); (0, 0); (3, 1); (2, 400); (2, 202); (1, 404); (0, 1); (9, 0);
    (0, 0); (2, 500); (1, 200)].
 Proof. exact example_ok. Qed.
+Print Assumptions c01_example.
+
+(* ====================================================================================== *)
+(* Second round: per key, every entry point, every answer field.
+
+   [xrun gun init h]   the model on a history of ALL entry points: the operations above, GET / HEAD
+                       in any request form (no Accept-Encoding: the needle is decompressed by the
+                       oracle [gun]; a file name in the URL), gRPC BatchDelete with and without
+                       SkipCookieCheck
+   [xjudge ...]        per event: does the answer satisfy the specification  id -> (cookie, last
+                       written needle)  in EVERY field ([xmatch]: also the "unchanged" acknowledgement
+                       and n.Size of a write, the size a delete reports, Content-Length), and the
+                       finding (if any) that has touched one of the keys the event names
+   [pk_ok]             every event that names only untouched keys is answered per specification   *)
+
+(* In EVERY history (no hypothesis about findings): an event all of whose keys were never written
+   with an empty payload (finding 0), never overwritten with the same cookie and bytes but other
+   metadata (finding 1), and never named in a BatchDelete together with such a key, is answered
+   exactly as the specification says.  The two findings cannot excuse any other key. *)
+Theorem c01_refines_per_key : forall gun h,
+  xwf_history h = true ->
+  pk_ok (xjudge gun [] [] spec_init h (xrun gun init h)) = true.
+Proof. exact refines_per_key. Qed.
+Print Assumptions c01_refines_per_key.
+
+(* A history without any event under a finding: every answer of every entry point is the
+   specification's (the statement of c01_refines_partial for the larger alphabet and with all
+   answer fields). *)
+Theorem c01_refines_clean : forall gun h,
+  xwf_history h = true -> xclean [] h = true ->
+  all_ok (xjudge gun [] [] spec_init h (xrun gun init h)) = true.
+Proof. exact refines_clean. Qed.
+Print Assumptions c01_refines_clean.
+
+(* GET / HEAD in any form with a cookie other than the stored one (or for a deleted, expired or
+   unknown id): 404, nothing served, volume unchanged -- after ANY history, for any untouched key. *)
+Theorem c01_cookie_get_per_key : forall gun h id c t g,
+  xwf_history h = true -> dirt_get (dirt_after [] [] h) id = None ->
+  (forall n, s_lookup (xspec_after gun spec_init h) id t <> Some (c, n)) ->
+  xstep gun (xstate_after gun init h) (t, XGet id c false g) = (xstate_after gun init h, XOGet 404 blank_hview 0) /\
+  xstep gun (xstate_after gun init h) (t, XBase (Get id c false)) = (xstate_after gun init h, XO (OGet 404 blank_hview)).
+Proof. exact cookie_get_k. Qed.
+Print Assumptions c01_cookie_get_per_key.
+
+(* HTTP DELETE and gRPC BatchDelete (cookie check on) with a cookie other than the stored one:
+   refused with 400 / 404 and the volume is unchanged -- after ANY history, for any untouched key. *)
+Theorem c01_cookie_delete_per_key : forall gun h id c t,
+  xwf_history h = true -> dirt_get (dirt_after [] [] h) id = None ->
+  (forall n, s_lookup (xspec_after gun spec_init h) id t <> Some (c, n)) ->
+  exists s, (s = 400 \/ s = 404) /\
+    xstep gun (xstate_after gun init h) (t, XBase (Del id c)) = (xstate_after gun init h, XO (ODel s 0)) /\
+    xstep gun (xstate_after gun init h) (t, XBatch [(id, c)] false) = (xstate_after gun init h, XOBatch [(s, 0)]).
+Proof. exact cookie_delete_k. Qed.
+Print Assumptions c01_cookie_delete_per_key.
+
+(* BatchDelete with SkipCookieCheck = true (and Store.DeleteVolumeNeedle, which it calls) never
+   looks at the cookie: the request option says so; the specification mirrors it. *)
+Theorem c01_batch_skip_ignores_cookie :
+  exists h id c t,
+    xwf_history h = true /\ xclean [] h = true /\
+    (forall n, s_lookup (xspec_after gid spec_init h) id t <> Some (c, n)) /\
+    snd (xstep gid (xstate_after gid init h) (t, XBatch [(id, c)] true)) = XOBatch [(202, 20)] /\
+    snd (xstep gid (fst (xstep gid (xstate_after gid init h) (t, XBatch [(id, c)] true))) (t, XBase (Get id 20 false)))
+    = XO (OGet 404 blank_hview).
+Proof. exact batch_skip_ignores_cookie. Qed.
+Print Assumptions c01_batch_skip_ignores_cookie.
+
+(* the literals written in model/Volume.v are the constants vc_* (tied to the Go constants in
+   props/ConstsTie.v) *)
+Theorem c01_literals :
+  (forall s, actual_size s =
+     let raw := vc_header_size + s + vc_checksum_size + vc_timestamp_size in
+     raw + (vc_padding_size - raw mod vc_padding_size)) /\
+  dat_end init = vc_super_block_size /\
+  (forall n, stored_name n = firstn vc_max_name (n_name n)) /\
+  (forall f, is_compressed f = N.testbit f (N.log2 vc_flag_compressed) /\
+             has_name f = N.testbit f (N.log2 vc_flag_name) /\
+             has_mime f = N.testbit f (N.log2 vc_flag_mime) /\
+             has_lastmod f = N.testbit f (N.log2 vc_flag_lastmod) /\
+             has_ttl f = N.testbit f (N.log2 vc_flag_ttl) /\
+             has_pairs f = N.testbit f (N.log2 vc_flag_pairs) /\
+             is_chunk_manifest f = N.testbit f (N.log2 vc_flag_manifest)) /\
+  (forall id c d, needle_size (mkx id c d (vc_flag_lastmod + vc_flag_ttl) [] [] 0) =
+                  if 0 <? blen d then 4 + blen d + 1 + vc_lastmod_bytes + vc_ttl_bytes else 0) /\
+  (forall s, size_deleted s = ((s <? 0) || (s =? vc_tombstone))%Z) /\
+  (forall c, ttl_minutes (c, 1) = c /\ ttl_minutes (c, 2) = c * 60 /\ ttl_minutes (c, 3) = c * 60 * 24 /\
+             ttl_minutes (c, 4) = c * 60 * 24 * 7 /\ ttl_minutes (c, 5) = c * 60 * 24 * 30 /\
+             ttl_minutes (c, 6) = c * 60 * 24 * 365) /\
+  (forall n, v_lastmod (view_of n) =
+             if has_lastmod (n_flags n) then n_lastmod n mod 2 ^ (8 * vc_lastmod_bytes) else 0) /\
+  (forall n, wf_needle n = true -> n_lastmod n < 2 ^ (8 * vc_lastmod_bytes)).
+Proof. exact literals_used. Qed.
+Print Assumptions c01_literals.
+
+(* non-vacuity of the per-key statement: key 1 falls under finding 0 and is served to a foreign
+   cookie; key 2 is untouched and answers per specification (overwrite, HEAD with the mime of the
+   name's extension, foreign-cookie DELETE and BatchDelete refused) until a BatchDelete names both
+   keys: the code goes on where the specification stops *)
+Example c01_example_per_key :
+  xwf_history example_x = true /\
+  xjudge gid [] [] spec_init example_x (xrun gid init example_x) =
+  [(true, Some 0); (true, None); (false, Some 0); (true, None); (true, None); (true, None); (true, None);
+   (false, Some 0); (false, Some 0)] /\
+  xrun gid init example_x =
+  [XO (OWrite ENone false 0); XO (OWrite ENone false 20);
+   XO (OGet 200 blank_hview);
+   XOGet 200 {| h_data := []; h_name := [97; 46; 99; 115; 115]; h_mime := mime_css; h_pairs := [];
+                h_lastmod := 100; h_gzip := false |} 3;
+   XO (OWrite ENone false 19); XO (ODel 400 0); XOBatch [(400, 0)]; XOBatch [(202, 0); (202, 19)];
+   XO (OGet 404 blank_hview)].
+Proof. exact example_x_ok. Qed.
+Print Assumptions c01_example_per_key.
